@@ -117,16 +117,18 @@ def strip_comments(src):
     return src
 
 
-def audit(pid, theorems):
+def audit(pid, theorems, extra_modules=()):
     """grep for forbidden constructs and check the axioms of each theorem.
     Returns (ok, report dict)."""
-    mods = lean_sources(["OQuPyVerif.Props." + pid])
+    mods = lean_sources(["OQuPyVerif.Props." + pid] + list(extra_modules))
     bad = []
     for m, path in mods.items():
         for i, line in enumerate(strip_comments(open(path).read()).splitlines()):
             if FORBIDDEN.search(line):
                 bad.append(f"{m}:{i+1}: {line.strip()}")
     src = "import OQuPyVerif.Props.%s\n" % pid
+    for m in extra_modules:
+        src += "import %s\n" % m
     for t in theorems:
         src += "#print axioms %s\n" % t
     tmp = os.path.join(LEAN, ".lake", "audit_%s_%d.lean" % (pid, os.getpid()))
@@ -303,20 +305,22 @@ class Result:
             json.dump(ev, f, indent=1, default=str)
 
 
-def standard_pipeline(res, fragments, theorems, thorough_checker=True):
-    """Steps 1-3.  Records obligations into `res`."""
+def standard_pipeline(res, fragments, theorems, thorough_checker=True, extra_modules=()):
+    """Steps 1-3.  Records obligations into `res`.  `extra_modules`: further Props modules whose
+    theorems this property relies on (built and audited together)."""
     pid = res.pid
     if fragments:
         ok, msg = run_translator(fragments)
         res.oblige("translator:" + ",".join(fragments), ok, msg)
         if not ok:
             log("translator cannot read the source: " + msg)
-    ok, out = lake_build(["OQuPyVerif.Props." + pid])
-    res.oblige("lake build OQuPyVerif.Props." + pid, ok, "" if ok else out[-3000:])
+    targets = ["OQuPyVerif.Props." + pid] + list(extra_modules)
+    ok, out = lake_build(targets)
+    res.oblige("lake build " + " ".join(targets), ok, "" if ok else out[-3000:])
     if not ok:
         log("proof obligations of %s no longer check:\n%s" % (pid, out[-3000:]))
         return
-    ok, rep = audit(pid, theorems)
+    ok, rep = audit(pid, theorems, extra_modules)
     for t in theorems:
         tok = (t not in rep["missing_theorems"]) and not any(
             k == t or k.endswith("." + t) for k in rep["extra_axioms"])
